@@ -183,6 +183,7 @@ func (e *Engine) initExterns() {
 			if acquire {
 				c.heapSet(st, "held$", c.vc.Name("h", Store(h, mu, TTrue)))
 				c.event(st, "lock", mu)
+				c.relock(st, mu)
 			} else {
 				if c.checks["held"] {
 					c.addObl("held", "unlock", nil, st, Select(h, mu, SBool), nil)
@@ -200,12 +201,22 @@ func (e *Engine) initExterns() {
 	lock("(*sync.RWMutex).RLock", false, true)
 	lock("(*sync.RWMutex).RUnlock", false, false)
 
+	e.invokes["(context.Context).Done"] = &externHandler{fn: func(c *FnCtx, st *State, args []SV, rt types.Type) SV {
+		c.trusted["context.Context.Done() returns one channel per context, never sent on, closed exactly when the context is cancelled (cap modelled as -1)"] = true
+		iv, _ := args[0].(If)
+		ch := c.uf("ctxdone", SInt, iv.Tag, iv.ID)
+		c.vc.Assert(App(SBool, ">", ch, IntLit(0)))
+		c.registerDoneChan(ch)
+		c.vc.Assert(Eq(Select(c.vc.Const("H0$chan$cap", SArr(SInt, SInt)), ch, SInt), IntLit(-1)))
+		return Sc{ch}
+	}}
 	e.invokes["error.Error"] = &externHandler{fn: func(c *FnCtx, st *State, args []SV, rt types.Type) SV {
 		iv, _ := args[0].(If)
 		return Sc{c.uf("errtext", SStr, iv.Tag, iv.ID)}
 	}}
 
 	e.initAtomics()
+	e.initSyncMap()
 	for _, p := range []string{
 		"strings.Contains", "strings.HasPrefix", "strings.HasSuffix", "strings.Index", "strings.IndexByte", "strings.LastIndex",
 		"strings.ToLower", "strings.ToUpper", "strings.TrimSpace", "strings.Trim", "strings.TrimPrefix", "strings.TrimSuffix",
